@@ -530,6 +530,16 @@ class Pipeline:
                 raise Inconclusive('Function::encode into a non-empty buffer')
             I.write_ref(st, args[1], Struct('ByteBuf', (BV(leblen(L) + L, 'usize'), ('len-prefixed-function', cur)), ('len', 'what')))
             cont(st, unit())
+        def m_fn_raw_body(I, st, c, args, cont, depth, site):
+            cur = I.deref(st, args[0]) if isinstance(args[0], Ref) else args[0]
+            n = sum(1 for e in cur.f[0].items if e[0] == 'instruction')
+            L = flen(cur.f[1], n)
+            st.pc.append(z3.ULT(L, z3.BitVecVal(1 << 32, 64)))
+            st.pc.append(z3.UGE(L, z3.BitVecVal(1, 64)))
+            if n > 0:
+                st.pc.append(z3.UGT(L, flen(cur.f[1], n - 1)))
+            cont(st, Struct('ByteBuf', (BV(L, 'usize'), ('function-body', cur)), ('len', 'what')))
+        add(r'^wasm_encoder::Function::into_raw_body$', m_fn_raw_body, 'Function::into_raw_body = the body bytes (no length prefix)', front=True)
         add(r'^<wasm_encoder::Function as (wasm_encoder::)?Encode>::encode$', m_fn_encode, 'Function::encode(sink) = LEB128(byte_len) ++ body', front=True)
 
         def m_bytebuf_len(I, st, c, args, cont, depth, site):
